@@ -220,6 +220,78 @@ def run(chk, scratch):
             chk.sample({"config": cname, "crash_point": n, "site": site, "resume_exit": r2["rc"] if r2 else None}, limit=5)
             shutil.rmtree(out, ignore_errors=True)
             shutil.rmtree(os.path.join(d, "saves%d" % n), ignore_errors=True)
+        # source-free failpoints: the process dies at the k-th executed LINE of the repository's own code (any instruction between two
+        # file-system mutations, e.g. between a write and the flush that makes it durable); k is drawn uniformly after .params was written
+        n_line = 90 if thorough else (18 if cname in conf_names[:2] else 0)
+        if n_line:
+            def prepared(tag):
+                out = os.path.join(d, "line_" + tag)
+                home = os.path.join(d, "home_line_" + tag)
+                shutil.copytree(os.path.join(d, "home"), home)
+                if stale:
+                    shutil.copytree(stale, out)
+                sv = None
+                if saves_src:
+                    sv = os.path.join(d, "saves_line_" + tag)
+                    shutil.copytree(saves_src, sv)
+                return out, home, sv
+            out, home, sv = prepared("count")
+            evl = os.path.join(d, "ev_linecount")
+            rc_ = runner.run_isoquant(args_for(cfg, d, out, extra, saves=sv), home, mon=["crash"], cfg={"crash_root": out, "crash_lines": True}, events=evl, timeout=900)
+            evs = runner.load_events(evl)
+            total = max([e["n"] for e in evs if e["k"] == "line_total"] or [0])
+            at_params = max([e.get("line_n") or 0 for e in evs if e["k"] == "mut" and e["path"].endswith(".params")] or [0])
+            shutil.rmtree(out, ignore_errors=True)
+            if rc_["rc"] != 0 or total <= at_params + 100:
+                chk.inconclusive.append("%s: line-counting run did not finish (exit %s, %d lines)" % (cname, rc_["rc"], total))
+            else:
+                lrng = random.Random(chk.seed * 1009 + len(cname))
+                # stratified: the first and the last line event of functions of the orchestration layer (dataset_processor.py, file_utils.py,
+                # isoquant.py, read_groups.py, ...: where stages begin and end, files are merged, locks written), the rest uniformly at random
+                fns = [f for e in evs if e["k"] == "line_total" for f in e.get("functions", [])]
+                edge = set()
+                for base, name, first, last, cnt in fns:
+                    for k in (first, last, last - 1):
+                        if at_params < k < total:
+                            edge.add(k)
+                edge = sorted(edge)
+                lrng.shuffle(edge)
+                lpoints = sorted(set(edge[:(2 * n_line) // 3] + lrng.sample(range(at_params + 1, total), n_line - min(len(edge), (2 * n_line) // 3))))
+                per_conf[cname]["line_failpoint_candidates_at_function_edges"] = len(edge)
+
+                def one_line(k):
+                    out, home, sv = prepared(str(k))
+                    r1 = runner.run_isoquant(args_for(cfg, d, out, extra, saves=sv), home, mon=["crash"],
+                                             cfg={"crash_root": out, "crash_lines": True, "crash_line_at": k}, events=os.path.join(d, "evl%d" % k), timeout=900)
+                    r2 = None
+                    site = "?"
+                    if r1["rc"] == 137:
+                        cr = [e for e in runner.load_events(os.path.join(d, "evl%d" % k)) if e["k"] == "crash"]
+                        site = cr[-1]["fn"] if cr else "?"
+                        r2 = runner.run_isoquant(["--resume", "-o", out] + (["--threads", "3"] if k % 2 else []), home, timeout=300)
+                    return k, out, site, r1, r2
+                for k, out, site, r1, r2 in runner.parallel(one_line, lpoints, workers=12):
+                    chk.note()
+                    if r1["rc"] != 137:
+                        chk.inconclusive.append("%s: line failpoint %d not reached (exit %s)" % (cname, k, r1["rc"]))
+                        continue
+                    chk.count("line_failpoints_executed")
+                    chk.nontrivial.add("line:" + site)
+                    wit = {"config": cname, "line_failpoint": k, "of_lines": total, "function": site, "options": extra}
+                    if r2["rc"] is None:
+                        chk.inconclusive.append("%s: watchdog expired while resuming after line failpoint %d" % (cname, k))
+                    elif r2["rc"] != 0:
+                        chk.violation("resume-exit-nonzero:killed-inside=%s" % site, "%s: killed at line event %d of %d (in %s); --resume exits %s: %s" %
+                                      (cname, k, total, site, r2["rc"], r2["out"][-300:].replace("\n", " | ")), wit)
+                    else:
+                        diffs = [x for x in runner.compare_trees(os.path.join(clean, _prefix_dir(cfg)), os.path.join(out, _prefix_dir(cfg))) if not x[0].startswith("aux")]
+                        for rel, why in diffs[:6]:
+                            chk.violation("silent-diff:killed-inside=%s:%s" % (site, file_kind(os.path.join(out, rel), out)),
+                                          "%s: killed at line event %d of %d (in %s); --resume exits 0 but %s %s" % (cname, k, total, site, rel, why), wit)
+                    shutil.rmtree(out, ignore_errors=True)
+                    shutil.rmtree(os.path.join(d, "saves_line_%d" % k), ignore_errors=True)
+                    shutil.rmtree(os.path.join(d, "home_line_%d" % k), ignore_errors=True)
+                per_conf[cname]["line_failpoints"] = {"lines_in_scope": total - at_params, "executed": len(lpoints)}
         if chk.violations and not getattr(chk, "witness_files", None):
             chk.witness_files = [os.path.join(d, f) for f in ("g.fa", "a.gtf", "r.bam", "r.bam.bai", "groups.tsv") if os.path.exists(os.path.join(d, f))]
     # multi-process kills: -t 4, the whole process group is SIGKILLed when some worker performs its k-th mutation
